@@ -25,11 +25,23 @@ import (
 	"strings"
 )
 
+// VerifDir is the root of the verification tree in use: /verif, or a snapshot
+// of it (PBSIM_ROOT, set by ./check to the directory it lives in).
+var (
+	VerifDir = verifRoot()
+	PbsimDir = VerifDir + "/pbsim"
+	WorkDir  = VerifDir + "/.work"
+)
+
+func verifRoot() string {
+	if r := os.Getenv("PBSIM_ROOT"); r != "" {
+		return r
+	}
+	return "/verif"
+}
+
 const (
 	RepoDir   = "/repo"
-	VerifDir  = "/verif"
-	PbsimDir  = "/verif/pbsim"
-	WorkDir   = "/verif/.work"
 	ShimBase  = "google.golang.org/protobuf/internal/"
 	SyncShim  = ShimBase + "simsync"
 	AtomShim  = ShimBase + "simatomic"
@@ -258,6 +270,7 @@ func Prepare(extra map[string][]byte) (*Build, error) {
 			ov.Replace[filepath.Join(RepoDir, "internal", pkg, e.Name())] = filepath.Join(dir, e.Name())
 		}
 	}
+	visited := map[string]bool{}
 	err := filepath.WalkDir(RepoDir, func(path string, d os.DirEntry, err error) error {
 		if err != nil {
 			return err
@@ -273,6 +286,7 @@ func Prepare(extra map[string][]byte) (*Build, error) {
 			return nil
 		}
 		rel, _ := filepath.Rel(RepoDir, path)
+		visited[rel] = true
 		var src []byte
 		if c, ok := extra[rel]; ok {
 			src = c
@@ -316,6 +330,25 @@ func Prepare(extra map[string][]byte) (*Build, error) {
 	})
 	if err != nil {
 		return nil, err
+	}
+	// files a self-test patch adds to the tree
+	var added []string
+	for rel := range extra {
+		if !visited[rel] && strings.HasSuffix(rel, ".go") && !strings.HasSuffix(rel, "_test.go") {
+			added = append(added, rel)
+		}
+	}
+	sort.Strings(added)
+	for _, rel := range added {
+		src := extra[rel]
+		if out, _, _, err := rewriteImports(rel, src); err == nil && out != nil {
+			src = out
+		}
+		p, err := cas(filepath.Base(rel), src)
+		if err != nil {
+			return nil, err
+		}
+		ov.Replace[filepath.Join(RepoDir, rel)] = p
 	}
 	js, err := json.MarshalIndent(ov, "", " ")
 	if err != nil {
